@@ -11,7 +11,7 @@ theorem scan_locked_of_crit {s : Sys} {k : Crit} (hG : GInv s) (hk : s.crit = so
   · rfl
 
 /-- the key-lock holder forwards its command and releases the lock (pull without entry, push after UMSYNC) -/
-theorem step_unlock_fwd {s : Sys} {k : Crit} (hG : GInv s) (hO : OInv s) (hW : WF s) (hk : s.crit = some k)
+theorem step_unlock_fwd {s : Sys} {k : Crit} (hG : GInv s) (hO : OInv s) (_hW : WF s) (hk : s.crit = some k)
     (hpc : k.pc = .pEntryNone ∨ ∃ r, k.pc = .uSyncGot r) :
     GInv (setPc { s with crit := none } k.id .pCmd) ∧ OInv (setPc { s with crit := none } k.id .pCmd) := by
   have hne : k.pc ≠ .uSlow := by rcases hpc with h | ⟨r, h⟩ <;> rw [h] <;> simp
